@@ -2,6 +2,7 @@ CONSTANT Mode = "scale"
 CONSTANT MaxSteps = 3
 CONSTANT MaxZero = 0
 CONSTANT RowCounts = {2, 3, 4}
+CONSTANT PadCounts = {}
 CONSTANT NGen = 3
 SPECIFICATION Spec
 INVARIANT TypeOK
